@@ -1,2 +1,2 @@
     requires spec_rx_action_id(*packet) is Some, //@ C04:rx_action_id_defined_for_packet
-    ensures r == spec_rx_action_id(*packet)->Some_0, //@ C05:rx_action_id_is_type_and_identifier_of_the_acknowledgement
+    ensures r == spec_rx_action_id(*packet)->Some_0, //@ C05+C06:rx_action_id_is_type_and_identifier_of_the_acknowledgement
